@@ -235,6 +235,16 @@ fn classify(kind: &str, feats: &str, doc: &J, filter: &str, mf: &Outcome, mg: &O
             }
         }
     }
+    // the generic evaluator short-circuits `map(f) | first` / `map(f) | .[0]` after the first
+    // element, so an error raised by a later element never surfaces (jq and the library
+    // evaluator build the whole array first): `[[1],2] | map(.[]) | first` -> 1 vs error
+    if filter.contains("map(")
+        && (filter.contains("| first") || filter.contains("|first") || filter.contains("| .[0]"))
+        && mf.end != End::Normal
+        && mg.end == End::Normal
+    {
+        return "C23/generic-map-then-first-short-circuits-past-error".to_string();
+    }
     format!("C23/{}/{}", kind, feats)
 }
 
